@@ -31,14 +31,22 @@ use bitcoin::{Amount, Network, OutPoint, ScriptBuf, Sequence, Transaction, TxIn,
 use lightning::types::payment::{PaymentHash, PaymentSecret};
 use lightning_signer::invoice::Invoice;
 use lightning_signer::lightning_invoice::{Currency, InvoiceBuilder};
+use lightning_signer::node::{PaymentState, RoutedPayment};
 use lightning_signer::persist::Persist;
 use lightning_signer::util::clock::{Clock, ManualClock};
 use lightning_signer::util::velocity::{
     VelocityControl, VelocityControlIntervalType, VelocityControlSpec,
 };
 use serde_json::{json, Value};
-use vls_protocol_signer::approver::{Approve, NegativeApprover, VelocityApprover};
+use vls_protocol_signer::approver::{Approve, NegativeApprover, PositiveApprover, VelocityApprover};
 use vls_verif_harness::*;
+
+fn named_pre(invoice_kind: bool, h: u64) -> [u8; 32] {
+    let mut pre = [9u8; 32];
+    pre[0] = if invoice_kind { 1 } else { 2 };
+    pre[1] = h as u8;
+    pre
+}
 
 /// the model's stand-in for u64::MAX (Velocity.tla: TOP)
 const TOP: u64 = 1_000_000_000;
@@ -55,6 +63,8 @@ struct Req {
     op: String,
     dt: u64,
     a: u64,
+    /// 0: a fresh payment hash; h > 0: the named payment hash h of the request's kind
+    h: u64,
 }
 
 #[derive(Clone, Debug)]
@@ -69,6 +79,8 @@ struct Case {
     t0: u64,
     /// exploration bound: states holding a small bucket value above `cap` are not expanded
     cap: u64,
+    /// named payment hashes per kind (invoice / keysend) that requests may re-use
+    ns: u64,
     reqs: Vec<Req>,
 }
 
@@ -85,6 +97,7 @@ fn req_of(v: &Value) -> Req {
         op: v["op"].as_str().unwrap().to_string(),
         dt: v["dt"].as_u64().unwrap(),
         a: v["a"].as_u64().unwrap(),
+        h: v["h"].as_u64().unwrap_or(0),
     }
 }
 
@@ -101,6 +114,7 @@ fn load_cases(path: &str) -> Vec<Case> {
             unit: c["unit"].as_u64().unwrap(),
             t0: c["t0"].as_u64().unwrap(),
             cap: c["cap"].as_u64().unwrap(),
+            ns: c["ns"].as_u64().unwrap_or(0),
             reqs: c["reqs"].as_array().unwrap().iter().map(req_of).collect(),
         })
         .collect()
@@ -176,6 +190,9 @@ struct Snap {
     fee: VelocityControl,
     dpay: VelocityControl,
     dfee: VelocityControl,
+    /// entries of the node's `invoices` map for the named payment hashes, in memory / in the store
+    inv: Vec<(PaymentHash, PaymentState)>,
+    dinv: Vec<(PaymentHash, PaymentState)>,
 }
 
 enum Sys {
@@ -240,22 +257,47 @@ impl World {
         pre
     }
 
-    fn invoice(&mut self, amt_msat: u64, now: u64) -> Invoice {
-        let pre = self.fresh_hash();
+    /// pre-image of a payment: fresh (never repeated) for h = 0, fixed for a named payment
+    fn pre_for(&mut self, invoice_kind: bool, h: u64) -> [u8; 32] {
+        if h == 0 {
+            return self.fresh_hash();
+        }
+        named_pre(invoice_kind, h)
+    }
+
+    /// A signed BOLT11 invoice.  A named payment (h > 0) always yields the same invoice for the same
+    /// amount (stamped at the case's epoch, ten years of validity), so that a retry is a retry.
+    fn invoice(&mut self, amt_msat: u64, now: u64, h: u64) -> Invoice {
+        let pre = self.pre_for(true, h);
         let payment_hash = Sha256Hash::hash(&pre);
         let key = SecretKey::from_slice(&[42u8; 32]).unwrap();
         let secp = &self.secp;
+        let stamp = if h == 0 { now } else { self.case.t0 };
         Invoice::Bolt11(
             InvoiceBuilder::new(Currency::Regtest)
                 .description("velocity".into())
                 .payment_hash(payment_hash)
                 .payment_secret(PaymentSecret(pre))
-                .duration_since_epoch(Duration::from_secs(now))
+                .duration_since_epoch(Duration::from_secs(stamp))
+                .expiry_time(Duration::from_secs(10 * 365 * 86400))
                 .min_final_cltv_expiry_delta(144)
                 .amount_milli_satoshis(amt_msat)
                 .build_signed(|h| secp.sign_ecdsa_recoverable(h, &key))
                 .expect("invoice"),
         )
+    }
+
+    /// payment hashes of the named payments: slots 1..ns invoices, ns+1..2ns keysends
+    fn named_hashes(&self) -> Vec<PaymentHash> {
+        let ns = self.case.ns;
+        let mut v = vec![];
+        for h in 1..=ns {
+            v.push(PaymentHash(Sha256Hash::hash(&named_pre(true, h)).to_byte_array()));
+        }
+        for h in 1..=ns {
+            v.push(PaymentHash(named_pre(false, h)));
+        }
+        v
     }
 
     /// apply one request to the real system: 1 approved, 0 refused, -1 error / panic
@@ -295,7 +337,7 @@ impl World {
                 }
             }
             ("approver", "AddKeysend") | ("approver", "AddInvoice") => {
-                let inv = if r.op == "AddInvoice" { Some(self.invoice(amt, now)) } else { None };
+                let inv = if r.op == "AddInvoice" { Some(self.invoice(amt, now, 0)) } else { None };
                 let hash = PaymentHash(self.fresh_hash());
                 if let Sys::Approver { app, clock, .. } = &self.sys {
                     clock.set(Duration::from_secs(now));
@@ -329,11 +371,21 @@ impl World {
                     unreachable!()
                 }
             }
-            ("node", "AddInvoice") => {
-                let inv = self.invoice(amt, now);
+            ("node", "AddInvoice") | ("node", "ProposeInvoice") => {
+                let inv = self.invoice(amt, now, r.h);
+                let direct = r.op == "AddInvoice";
                 if let Sys::Node { fx } = &self.sys {
                     fx.clock.set(Duration::from_secs(now));
-                    match catch(|| fx.node.add_invoice(inv)) {
+                    // Propose*: the protocol handler's path - Approve::handle_proposed_invoice
+                    // (has_payment shortcut, an approver that approves, then Node::add_invoice)
+                    let res = catch(|| {
+                        if direct {
+                            fx.node.add_invoice(inv)
+                        } else {
+                            PositiveApprover().handle_proposed_invoice(&fx.node, inv)
+                        }
+                    });
+                    match res {
                         Ok(Ok(true)) => 1,
                         Ok(Ok(false)) => 0,
                         Ok(Err(st)) => {
@@ -349,12 +401,20 @@ impl World {
                     unreachable!()
                 }
             }
-            ("node", "AddKeysend") => {
-                let hash = PaymentHash(self.fresh_hash());
+            ("node", "AddKeysend") | ("node", "ProposeKeysend") => {
+                let hash = PaymentHash(self.pre_for(false, r.h));
                 let payee = self.payee;
+                let direct = r.op == "AddKeysend";
                 if let Sys::Node { fx } = &self.sys {
                     fx.clock.set(Duration::from_secs(now));
-                    match catch(|| fx.node.add_keysend(payee, hash, amt)) {
+                    let res = catch(|| {
+                        if direct {
+                            fx.node.add_keysend(payee, hash, amt)
+                        } else {
+                            PositiveApprover().handle_proposed_keysend(&fx.node, payee, hash, amt)
+                        }
+                    });
+                    match res {
                         Ok(Ok(true)) => 1,
                         Ok(Ok(false)) => 0,
                         Ok(Err(st)) => {
@@ -436,28 +496,50 @@ impl World {
         let now = self.now_real();
         match &self.sys {
             Sys::Struct { ctl, .. } => {
-                Snap { now, pay: ctl.clone(), fee: ctl.clone(), dpay: ctl.clone(), dfee: ctl.clone() }
+                Snap { now, pay: ctl.clone(), fee: ctl.clone(), dpay: ctl.clone(), dfee: ctl.clone(), inv: vec![], dinv: vec![] }
             }
             Sys::Approver { app, .. } => {
                 let c = app.control();
-                Snap { now, pay: c.clone(), fee: c.clone(), dpay: c.clone(), dfee: c }
+                Snap { now, pay: c.clone(), fee: c.clone(), dpay: c.clone(), dfee: c, inv: vec![], dinv: vec![] }
             }
             Sys::Node { fx } => {
-                let (pay, fee) = {
+                let named = self.named_hashes();
+                let (pay, fee, inv) = {
                     let st = fx.node.get_state();
-                    (st.velocity_control.clone(), st.fee_velocity_control.clone())
+                    let inv = named
+                        .iter()
+                        .filter_map(|h| st.invoices.get(h).map(|p| (*h, p.clone())))
+                        .collect();
+                    (st.velocity_control.clone(), st.fee_velocity_control.clone(), inv)
                 };
                 let nodes = fx.store.get_nodes().expect("get_nodes");
                 let entry = &nodes.first().expect("stored node").1;
+                let dinv = named
+                    .iter()
+                    .filter_map(|h| entry.state.invoices.get(h).map(|p| (*h, p.clone())))
+                    .collect();
                 Snap {
                     now,
                     pay,
                     fee,
                     dpay: entry.state.velocity_control.clone(),
                     dfee: entry.state.fee_velocity_control.clone(),
+                    inv,
+                    dinv,
                 }
             }
         }
+    }
+
+    /// registered amount per named payment (model units), -1: not registered
+    fn inv_json(&self, inv: &Vec<(PaymentHash, PaymentState)>) -> Vec<i64> {
+        self.named_hashes()
+            .iter()
+            .map(|h| match inv.iter().find(|(k, _)| k == h) {
+                Some((_, p)) => dec_amt(p.amount_msat, self.case.unit),
+                None => -1,
+            })
+            .collect()
     }
 
     /// projection onto the variables of Velocity.tla (model units)
@@ -466,15 +548,17 @@ impl World {
         let now = c.dec_time(s.now);
         match &self.sys {
             Sys::Node { .. } => json!({"now": now, "pay": c.ctl_json(&s.pay), "fee": c.ctl_json(&s.fee),
-                                       "dpay": c.ctl_json(&s.dpay), "dfee": c.ctl_json(&s.dfee)}),
+                                       "dpay": c.ctl_json(&s.dpay), "dfee": c.ctl_json(&s.dfee),
+                                       "inv": self.inv_json(&s.inv), "dinv": self.inv_json(&s.dinv)}),
             _ => json!({"now": now, "pay": c.ctl_json(&s.pay), "fee": c.fresh_json(&c.fee),
-                        "dpay": c.ctl_json(&s.dpay), "dfee": c.fresh_json(&c.fee)}),
+                        "dpay": c.ctl_json(&s.dpay), "dfee": c.fresh_json(&c.fee),
+                        "inv": Vec::<i64>::new(), "dinv": Vec::<i64>::new()}),
         }
     }
 
     /// put the real system into a previously observed state (exploration only).  At node level
-    /// the set of approved invoices is NOT restored: every request carries a fresh payment hash,
-    /// so it takes no part in the velocity decision.
+    /// only the `invoices` entries of the NAMED payment hashes are restored (memory and store);
+    /// entries of fresh hashes are never looked up again.
     fn restore(&mut self, s: &Snap) {
         match &mut self.sys {
             Sys::Struct { ctl, now } => {
@@ -491,9 +575,17 @@ impl World {
                 st.invoices.clear();
                 st.issued_invoices.clear();
                 st.payments.clear();
+                for (h, p) in s.dinv.iter() {
+                    st.invoices.insert(*h, p.clone());
+                }
                 st.velocity_control = s.dpay.clone();
                 st.fee_velocity_control = s.dfee.clone();
                 fx.store.update_node(&id, &*st).expect("update_node");
+                st.invoices.clear();
+                for (h, p) in s.inv.iter() {
+                    st.invoices.insert(*h, p.clone());
+                    st.payments.entry(*h).or_insert_with(RoutedPayment::new);
+                }
                 st.velocity_control = s.pay.clone();
                 st.fee_velocity_control = s.fee.clone();
                 drop(st);
@@ -525,6 +617,8 @@ fn state_key(case: &Case, proj: &Value) -> String {
         }
         parts.push(ent.join(","));
     }
+    parts.push(format!("{}", proj["inv"]));
+    parts.push(format!("{}", proj["dinv"]));
     parts.join("|")
 }
 
@@ -585,7 +679,7 @@ fn explore_case(case: &Case, max_states: usize) -> (Vec<Row>, Vec<Value>, f64) {
             let post = w.snap();
             let pp = w.project(&post);
             if ok < 0 {
-                details.push(json!({"case": case.id, "node": i, "req": {"op": r.op, "dt": r.dt, "a": r.a},
+                details.push(json!({"case": case.id, "node": i, "req": {"op": r.op, "dt": r.dt, "a": r.a, "h": r.h},
                                     "detail": w.last_detail}));
             }
             let key = state_key(case, &pp);
